@@ -297,6 +297,7 @@ pub fn fixed_zoo() -> Vec<ZooModule> {
     let mut z = systematic();
     z.extend(random_modules(FIXED_SEED, 60, 40));
     z.extend(c03_shapes(3));
+    z.extend(c05_pairs(60));
     z
 }
 
@@ -376,4 +377,130 @@ pub fn c03_shapes(n_max: usize) -> Vec<ZooModule> {
         }
     }
     out
+}
+
+// ---------------------------------------------------------------------------------------------
+// C05: schema version pairs (V2 = V1 + appended extension additions)
+
+fn octets(n: u64) -> Type {
+    Type::OctetString { size: Some(Size::fixed(n, false)) }
+}
+
+/// addition types whose open-type encodings fall into the three length classes
+/// 1..63, 64..127 and 128..300 octets (the first length octet starts with 00, 01, 10)
+fn c05_addition(k: usize, salt: usize) -> (Type, Presence) {
+    let pick = (k * 7 + salt * 3) % 12;
+    let ty = match pick {
+        0 => Type::Boolean,
+        1 => octets(10),
+        2 => octets(70),
+        3 => octets(200),
+        4 => Type::int(0, 65535),
+        5 => octets(100),
+        6 => Type::Str { cs: Charset::Ia5, size: Some(Size::range(0, Some(300), false)) },
+        7 => octets(130),
+        8 => Type::SequenceOf { elem: Box::new(Type::int(0, 255)), size: Some(Size::range(0, Some(300), false)) },
+        9 => octets(64),
+        10 => Type::Sequence(Fields { comps: vec![comp("x", octets(66), Presence::Mandatory), comp("y", Type::Boolean, Presence::Optional)], root: Some(1) }),
+        _ => octets(127),
+    };
+    let presence = match (k + salt) % 4 {
+        0 => Presence::Optional,
+        1 if matches!(ty, Type::Boolean) => Presence::Default(DefaultVal { lit: Lit::Bool(true), via: None }),
+        1 if matches!(ty, Type::Integer { .. }) => Presence::Default(DefaultVal { lit: Lit::Int(42), via: None }),
+        _ => Presence::Mandatory,
+    };
+    (ty, presence)
+}
+
+/// pair `p`: (V1 module, V2 module). Top-level type `Msg`; the versioned type is `Msg` itself or
+/// `Inner` (nested in a root component, in an extension addition, or as list element).
+pub fn c05_pair(p: usize) -> (ZooModule, ZooModule) {
+    let kind = p % 5; // 0 sequence, 1 set, 2 choice, 3 enumerated, 4 sequence (other placement mix)
+    let placement = (p / 5) % 4; // 0 top, 1 root component, 2 extension addition of an outer type, 3 list element
+    let j = (p / 20) % 3; // additions V1 already has
+    let k = 1 + (p * 5 + p / 7) % 8; // appended additions
+    let build = |n_add: usize| -> Type {
+        match kind {
+            0 | 1 | 4 => {
+                let mut comps = vec![comp("r0", Type::int(0, 255), Presence::Mandatory), comp("r1", Type::Boolean, Presence::Optional), comp("r2", Type::Str { cs: Charset::Ia5, size: Some(Size::range(0, Some(5), false)) }, Presence::Mandatory)];
+                if kind == 4 {
+                    comps.truncate(1);
+                }
+                let n_root = comps.len();
+                for a in 0..n_add {
+                    let (ty, pres) = c05_addition(a, p);
+                    comps.push(comp(&format!("a{a}"), ty, pres));
+                }
+                let f = Fields { comps, root: Some(n_root) };
+                if kind == 1 {
+                    Type::Set(f)
+                } else {
+                    Type::Sequence(f)
+                }
+            }
+            2 => {
+                let mut alts = vec![Alt { name: "r0".into(), tag: None, ty: Type::int(0, 255) }, Alt { name: "r1".into(), tag: None, ty: Type::Boolean }];
+                for a in 0..n_add {
+                    let (ty, _) = c05_addition(a, p);
+                    alts.push(Alt { name: format!("a{a}"), tag: None, ty });
+                }
+                Type::Choice { alts, root: Some(2) }
+            }
+            _ => {
+                let mut items: Vec<(String, Option<i64>)> = vec![("r0".into(), None), ("r1".into(), None), ("r2".into(), None)];
+                // (many items so that indices >= 64 into the additions occur in some pairs)
+                let n_items = if p % 2 == 1 { n_add * 12 } else { n_add };
+                for a in 0..n_items {
+                    items.push((format!("a{a}"), None));
+                }
+                Type::Enumerated { items, root: Some(3) }
+            }
+        }
+    };
+    let module = |version: usize, n_add: usize| -> ZooModule {
+        let versioned = build(n_add);
+        let mut defs = Vec::new();
+        match placement {
+            0 => defs.push(Def { name: "Msg".into(), tag: None, ty: versioned }),
+            1 => {
+                defs.push(Def { name: "Inner".into(), tag: None, ty: versioned });
+                defs.push(Def {
+                    name: "Msg".into(),
+                    tag: None,
+                    ty: Type::Sequence(Fields { comps: vec![comp("pre", Type::Boolean, Presence::Mandatory), comp("inner", Type::Ref("Inner".into()), Presence::Mandatory), comp("post", Type::int(0, 15), Presence::Mandatory)], root: None }),
+                });
+            }
+            2 => {
+                defs.push(Def { name: "Inner".into(), tag: None, ty: versioned });
+                defs.push(Def {
+                    name: "Msg".into(),
+                    tag: None,
+                    ty: Type::Sequence(Fields { comps: vec![comp("pre", Type::Boolean, Presence::Mandatory), comp("inner", Type::Ref("Inner".into()), Presence::Mandatory), comp("post", Type::int(0, 15), Presence::Optional)], root: Some(1) }),
+                });
+            }
+            _ => {
+                defs.push(Def { name: "Inner".into(), tag: None, ty: versioned });
+                defs.push(Def {
+                    name: "Msg".into(),
+                    tag: None,
+                    ty: Type::Sequence(Fields { comps: vec![comp("list", Type::SequenceOf { elem: Box::new(Type::Ref("Inner".into())), size: Some(Size::range(0, Some(3), false)) }, Presence::Mandatory), comp("post", Type::int(0, 15), Presence::Mandatory)], root: None }),
+                });
+            }
+        }
+        ZooModule {
+            module: Module::simple(&format!("C05P{p}V{version}"), defs),
+            conformance: true,
+            group: "c05".into(),
+            meta: serde_json::json!({"pair": p, "version": version, "kind": (["sequence", "set", "choice", "enumerated", "sequence"][kind]), "placement": (["top", "root-component", "extension-addition", "list-element"][placement]), "v1_additions": j, "appended": k}),
+        }
+    };
+    (module(1, j), module(2, j + k))
+}
+
+pub fn c05_pairs(n: usize) -> Vec<ZooModule> {
+    (0..n).flat_map(|p| {
+        let (a, b) = c05_pair(p);
+        [a, b]
+    }).collect()
 }
